@@ -224,6 +224,51 @@ def build(run):
     run.function(remove_complex_nodes)
     run.add("real-mode/entry-points", rm_entry, kind="bounded")
 
+    # ---- complex mode, through the entry point, on operands that are already real-part nodes / nested checks / checked twice:
+    # the result has the value of the input, and every operand of an ordering comparison, min or max is real valued
+    def cm_entry():
+        import ufl
+        from ufl import conditional, gt, lt, max_value, min_value, real, imag
+        a, b = Opq("a", dom=tri), Opq("b", dom=tri)
+        ra, rb = Opq("ra", dom=tri, real=True), Opq("rb", dom=tri, real=True)
+        cases = [
+            ("conditional(real(a) > 0, a, b)", lambda: conditional(gt(real(a), 0), a, b)),
+            ("max_value(real(a), 0.5)", lambda: max_value(real(a), 0.5)), ("min_value(real(a), real(b))", lambda: min_value(real(a), real(b))),
+            ("max_value(abs(a), abs(b))", lambda: max_value(abs(a), abs(b))), ("conditional(imag(a) < real(b), a, b)", lambda: conditional(lt(imag(a), real(b)), a, b)),
+            ("real operands", lambda: conditional(lt(ra, rb), a, max_value(ra, rb) * b)),
+            ("nested", lambda: conditional(gt(max_value(real(a), imag(b)), min_value(ra, abs(b))), real(a) * b, a)),
+        ]
+        n = 0
+        for name, mk in cases:
+            e = mk()
+            for times in (1, 2):
+                try:
+                    r = do_comparison_check(e)
+                    if times == 2:
+                        r = do_comparison_check(r)
+                except ComplexComparisonError:
+                    n += 1
+                    break       # a conservative rejection is allowed (opaque operands are typed complex by the checker)
+                res = check_same(complex_world(), r, lambda w, c, env: den(w, e, c, env), (), timeout_ms=tmo, what=f"{name} (checked {times}x)")
+                n += 1
+                if res.status != "proved":
+                    return res
+                for node in ufl.corealg.traversal.unique_pre_traversal(r):
+                    if isinstance(node, (C.LT, C.GT, C.LE, C.GE, C.MaxValue, C.MinValue)):
+                        for op in node.ufl_operands:
+                            w = complex_world()(True, None)
+                            v = prove_equal(w, N.imag(den(w, op, (), {})), 0, 10000)
+                            n += 1
+                            if v.status == "refuted":
+                                return violated(f"complex mode: after checking '{name}' {times}x the operand {op} of {type(node).__name__} can have a non-zero "
+                                                f"imaginary part: {v.model}", replay={"expr": str(e), "result": str(r), "operand": str(op), "model": v.model},
+                                                reproduced=True, backend=v.backend)
+                            if v.status != "proved":
+                                return undecided(f"cm_entry {name}: {v.backend} {v.detail}")
+        return proved("z3", vcs=n, sample=f"{len(cases)} expressions x (checked once, twice): value preserved, all comparison operands real valued")
+    run.function(do_comparison_check)
+    run.add("complex-mode/entry-point(real-part operands, repeated application)", cm_entry, kind="values")
+
     def canary():
         a = Opq("a")    # complex-valued opaque: Im need not vanish -> must be refuted
         w = complex_world()(True, None)
